@@ -14,4 +14,5 @@ func checkC10(c *Check) {
 	c.cleanupOnExit("C10.5 cleanup-completeness")
 	c.disableStopsAndJoins("C10.3 stop-joins-everything")
 	c.packageState("C10.1 package-state")
+	c.rendezvousChannels("C10.3 nothing-parked-at-stop", "inConnCh")
 }
